@@ -20,22 +20,48 @@
    fastpasta/src/analyze/validators/its/data_words.rs
    fastpasta/src/analyze/validators/its/data_words/ib.rs
    fastpasta/src/analyze/validators/its/data_words/ob.rs
+   fastpasta/src/analyze/validators/its/lib.rs
+   fastpasta/src/analyze/validators/its/its_payload_fsm_cont.rs
 -/
 import FastPasta.Spec.RsPrelude
 import FastPasta.Spec.WordsSrcGen
 import FastPasta.Spec.RdhSrcGen
 import FastPasta.Spec.StateSrcGen
+import FastPasta.Spec.FsmSrcGen
 set_option linter.unusedVariables false
 namespace FastPasta
 namespace SrcLink
 structure CdpRunningValidator where
   f_trigger_period : (Option Nat)
   f_running_checks_enabled : Bool
+  f_its_state_machine : FsmSt
   f_tracker : SrcState.CdpTracker
   f_rdh_validator : SrcState.ItsRdhValidator
   f_status_words : SrcState.StatusWordContainer
   f_out : (List Rs.Report)
   deriving DecidableEq, Repr, Inhabited
+inductive ItsPayloadWord where
+  | IHW
+  | IHW_continuation
+  | TDH
+  | TDH_continuation
+  | TDH_after_packet_done
+  | TDT
+  | CDW
+  | DataWord
+  | DDW0
+  deriving DecidableEq, Repr, Inhabited
+inductive AmbigiousError where
+  | TDH_or_DDW0
+  | DW_or_TDT_CDW
+  | DDW0_or_TDH_IHW
+  deriving DecidableEq, Repr, Inhabited
+/-- the answer of the translated state machine (`SrcFsm.step`, whose `WordClass` merges both sides) as the source's
+    `Result<ItsPayloadWord, AmbigiousError>`: `Ok(X)` / `Err(Y)` exactly as tools/src2lean.py names them (spec `lean_prelude`) -/
+def classResult : WordClass → Rs.ResV AmbigiousError ItsPayloadWord
+  | .ihw => .ok .IHW | .ihwCont => .ok .IHW_continuation | .tdh => .ok .TDH | .tdhCont => .ok .TDH_continuation
+  | .tdhAfterPacketDone => .ok .TDH_after_packet_done | .tdt => .ok .TDT | .cdw => .ok .CDW | .dataWord => .ok .DataWord | .ddw0 => .ok .DDW0
+  | .errTdhOrDdw0 => .err .TDH_or_DDW0 | .errDwOrTdtCdw => .err .DW_or_TDT_CDW | .errDdw0OrTdhIhw => .err .DDW0_or_TDH_IHW
 def CdpRunningValidator.report_error (self_ : CdpRunningValidator) (error : Rs.Str) (word_slice : Bytes) : (Unit × CdpRunningValidator) :=
   (let self__1 := { self_ with f_out := (self_.f_out ++ [Rs.Report.mk (SrcState.CdpTracker.current_word_mem_pos (self_.f_tracker)) error word_slice false true]) }; ((), self__1))
 
@@ -46,7 +72,7 @@ def CdpRunningValidator.report_errors (self_ : CdpRunningValidator) (errors : Rs
   (let self__1 := { self_ with f_out := (self_.f_out ++ [Rs.Report.mk (SrcState.CdpTracker.current_word_mem_pos (self_.f_tracker)) errors word_slice true true]) }; ((), self__1))
 
 def CdpRunningValidator.check_rdh_at_ddw0 (self_ : CdpRunningValidator) (ddw0_slice : Bytes) : (Unit × CdpRunningValidator) :=
-  (if ((SrcState.ItsRdhValidator.check_at_ddw0 (self_.f_rdh_validator))).isErr then (let c_22 := (CdpRunningValidator.report_errors (self_) (((SrcState.ItsRdhValidator.check_at_ddw0 (self_.f_rdh_validator))).errStr) (ddw0_slice)); (let self__2 := c_22.2; ((), self__2))) else ((), self_))
+  (if ((SrcState.ItsRdhValidator.check_at_ddw0 (self_.f_rdh_validator))).isErr then (let c_45 := (CdpRunningValidator.report_errors (self_) (((SrcState.ItsRdhValidator.check_at_ddw0 (self_.f_rdh_validator))).errStr) (ddw0_slice)); (let self__2 := c_45.2; ((), self__2))) else ((), self_))
 
 def CdpRunningValidator.preprocess_ddw0 (self_ : CdpRunningValidator) (ddw0_slice : Bytes) : (Unit × CdpRunningValidator) :=
   (let ddw0 := (Rs.Res.unwrapD (SrcWords.Ddw0.from_buf (ddw0_slice))); (let self__2 := (if ((SrcState.StatusWordContainer.sanity_check_ddw0 (self_.f_status_words) (ddw0))).isErr then (let c_3 := (CdpRunningValidator.report_error (self_) (((Rs.Str.lit true [60]).app ((SrcState.StatusWordContainer.sanity_check_ddw0 (self_.f_status_words) (ddw0))).errStr)) (ddw0_slice)); (let self__3 := c_3.2; self__3)) else self_); (let self_ := (if self__2.f_running_checks_enabled then (let c_4 := (CdpRunningValidator.check_rdh_at_ddw0 (self__2) (ddw0_slice)); (let self_ := c_4.2; self_)) else self__2); (let c_5 := (SrcState.StatusWordContainer.replace_ddw (self_.f_status_words) (ddw0)); (let self__5 := { self_ with f_status_words := c_5.2 }; ((), self__5))))))
@@ -73,10 +99,10 @@ def CdpRunningValidator.preprocess_tdt (self_ : CdpRunningValidator) (tdh_slice 
   (let tdt := (Rs.Res.unwrapD (SrcWords.Tdt.from_buf (tdh_slice))); (let self__2 := (if ((SrcState.StatusWordContainer.sanity_check_tdt (self_.f_status_words) (tdt))).isErr then (let c_14 := (CdpRunningValidator.report_error (self_) (((Rs.Str.lit true [50]).app ((SrcState.StatusWordContainer.sanity_check_tdt (self_.f_status_words) (tdt))).errStr)) (tdh_slice)); (let self__3 := c_14.2; self__3)) else self_); (let c_15 := (SrcState.StatusWordContainer.replace_tdt (self__2.f_status_words) (tdt)); (let self_ := { self__2 with f_status_words := c_15.2 }; ((), self_)))))
 
 def CdpRunningValidator.process_ib_data_word (self_ : CdpRunningValidator) (ib_slice : Bytes) : (Unit × CdpRunningValidator) :=
-  (if (!self_.f_running_checks_enabled) then ((), self_) else (let self__1 := (if ((SrcWords.IbDataWordValidator.check (ib_slice) ((SrcWords.Ihw.active_lanes ((Rs.unwrapD (SrcState.StatusWordContainer.ihw (self_.f_status_words)))))))).isErr then (let c_23 := (CdpRunningValidator.report_error (self_) (((SrcWords.IbDataWordValidator.check (ib_slice) ((SrcWords.Ihw.active_lanes ((Rs.unwrapD (SrcState.StatusWordContainer.ihw (self_.f_status_words)))))))).errStr) (ib_slice)); (let self__2 := c_23.2; self__2)) else self_); ((), self__1)))
+  (if (!self_.f_running_checks_enabled) then ((), self_) else (let self__1 := (if ((SrcWords.IbDataWordValidator.check (ib_slice) ((SrcWords.Ihw.active_lanes ((Rs.unwrapD (SrcState.StatusWordContainer.ihw (self_.f_status_words)))))))).isErr then (let c_46 := (CdpRunningValidator.report_error (self_) (((SrcWords.IbDataWordValidator.check (ib_slice) ((SrcWords.Ihw.active_lanes ((Rs.unwrapD (SrcState.StatusWordContainer.ihw (self_.f_status_words)))))))).errStr) (ib_slice)); (let self__2 := c_46.2; self__2)) else self_); ((), self__1)))
 
 def CdpRunningValidator.process_ob_data_word (self_ : CdpRunningValidator) (ob_slice : Bytes) : (Unit × CdpRunningValidator) :=
-  (if (!self_.f_running_checks_enabled) then ((), self_) else (let self__1 := (if ((SrcWords.ObDataWordValidator.check (ob_slice) ((SrcWords.Ihw.active_lanes ((Rs.unwrapD (SrcState.StatusWordContainer.ihw (self_.f_status_words)))))))).isErr then (let c_24 := (CdpRunningValidator.report_errors (self_) (((SrcWords.ObDataWordValidator.check (ob_slice) ((SrcWords.Ihw.active_lanes ((Rs.unwrapD (SrcState.StatusWordContainer.ihw (self_.f_status_words)))))))).errStr) (ob_slice)); (let self__2 := c_24.2; self__2)) else self_); ((), self__1)))
+  (if (!self_.f_running_checks_enabled) then ((), self_) else (let self__1 := (if ((SrcWords.ObDataWordValidator.check (ob_slice) ((SrcWords.Ihw.active_lanes ((Rs.unwrapD (SrcState.StatusWordContainer.ihw (self_.f_status_words)))))))).isErr then (let c_47 := (CdpRunningValidator.report_errors (self_) (((SrcWords.ObDataWordValidator.check (ob_slice) ((SrcWords.Ihw.active_lanes ((Rs.unwrapD (SrcState.StatusWordContainer.ihw (self_.f_status_words)))))))).errStr) (ob_slice)); (let self__2 := c_47.2; self__2)) else self_); ((), self__1)))
 
 def CdpRunningValidator.preprocess_data_word (self_ : CdpRunningValidator) (data_word_slice : Bytes) : (Unit × CdpRunningValidator) :=
   (let ID_INDEX := 9; (let self__2 := (if ((SrcState.CdpTracker.start_of_data (self_.f_tracker)) && ((bAt data_word_slice ID_INDEX) == SrcWords.Cdw.ID)) then (let c_16 := (CdpRunningValidator.process_cdw (self_) (data_word_slice)); (let self__3 := c_16.2; self__3)) else (let self__2 := (if ((SrcWords.DataWordSanityChecker.check_any (data_word_slice))).isErr then (let c_17 := (CdpRunningValidator.report_error (self_) (((Rs.Str.lit true [70]).app ((SrcWords.DataWordSanityChecker.check_any (data_word_slice))).errStr)) (data_word_slice)); (let self__3 := c_17.2; self__3)) else self_); (let id_3_msb := ((bAt data_word_slice ID_INDEX) >>> 5); (let self_ := (if (id_3_msb == 1) then (let c_18 := (CdpRunningValidator.process_ib_data_word (self__2) (data_word_slice)); (let self_ := c_18.2; self_)) else (let self_ := (if (id_3_msb == 2) then (let c_19 := (CdpRunningValidator.process_ob_data_word (self__2) (data_word_slice)); (let self_ := c_19.2; self_)) else self__2); self_)); self_)))); (let c_20 := (SrcState.CdpTracker.set_data_seen (self__2.f_tracker)); (let self_ := { self__2 with f_tracker := c_20.2 }; ((), self_)))))
@@ -86,6 +112,15 @@ def CdpRunningValidator.report_noword (self_ : CdpRunningValidator) (error : Rs.
 
 def CdpRunningValidator.check_tdh_trigger_interval (self_ : CdpRunningValidator) (_tdh_slice : Bytes) : (Unit × CdpRunningValidator) :=
   (if (self_.f_trigger_period).isSome then (if ((SrcState.StatusWordContainer.tdh_previous_with_internal_trg (self_.f_status_words))).isSome then (let current_tdh := (Rs.unwrapD (SrcState.StatusWordContainer.tdh (self_.f_status_words))); (if ((SrcWords.Tdh.internal_trigger (current_tdh)) == 1) then (if ((SrcState.TdhValidator.check_trigger_interval (current_tdh) ((Rs.unwrapD (SrcState.StatusWordContainer.tdh_previous_with_internal_trg (self_.f_status_words)))) ((Rs.unwrapD self_.f_trigger_period)))).isErr then (let c_21 := (CdpRunningValidator.report_noword (self_) (((SrcState.TdhValidator.check_trigger_interval (current_tdh) ((Rs.unwrapD (SrcState.StatusWordContainer.tdh_previous_with_internal_trg (self_.f_status_words)))) ((Rs.unwrapD self_.f_trigger_period)))).errStr)); (let self__3 := c_21.2; (c_21.1, self__3))) else ((), self_)) else ((), self_))) else ((), self_)) else ((), self_))
+
+def CdpRunningValidator.fsm_advance (self_ : CdpRunningValidator) (gbt_word : Bytes) : ((Rs.ResV AmbigiousError ItsPayloadWord) × CdpRunningValidator) :=
+  (let r := (let r := SrcFsm.step self_.f_its_state_machine (bAt gbt_word 9) (SrcWords.tdh_no_data gbt_word) (SrcWords.tdt_packet_done gbt_word); (r.1, classResult r.2)); (let self__2 := { self_ with f_its_state_machine := r.1 }; (r.2, self__2)))
+
+def CdpRunningValidator.check (self_ : CdpRunningValidator) (gbt_word : Bytes) : (Unit × CdpRunningValidator) :=
+  (let c_22 := (SrcState.CdpTracker.incr_word_count (self_.f_tracker)); (let self__2 := { self_ with f_tracker := c_22.2 }; (let c_24 := (CdpRunningValidator.fsm_advance (self__2) (gbt_word)); (let self_ := c_24.2; (let m_23 := c_24.1; (if (m_23).isErr then (let ambigious_word := (Rs.ResV.errVal m_23); (if (ambigious_word == AmbigiousError.TDH_or_DDW0) then (let c_25 := (CdpRunningValidator.report_error (self_) ((Rs.Str.lit true [990])) (gbt_word)); (let self__8 := c_25.2; (let c_26 := (CdpRunningValidator.preprocess_tdh (self__8) (gbt_word)); (let self_ := c_26.2; ((), self_))))) else (if (ambigious_word == AmbigiousError.DW_or_TDT_CDW) then (let c_27 := (CdpRunningValidator.report_error (self_) ((Rs.Str.lit true [991])) (gbt_word)); (let self__8 := c_27.2; (let c_28 := (CdpRunningValidator.preprocess_data_word (self__8) (gbt_word)); (let self_ := c_28.2; ((), self_))))) else (let c_29 := (CdpRunningValidator.report_error (self_) ((Rs.Str.lit true [992])) (gbt_word)); (let self__8 := c_29.2; (let c_30 := (CdpRunningValidator.preprocess_ddw0 (self__8) (gbt_word)); (let self_ := c_30.2; ((), self_)))))))) else (let word := (Rs.ResV.okVal m_23); (if ((word == ItsPayloadWord.DataWord) || (word == ItsPayloadWord.CDW)) then (let c_31 := (CdpRunningValidator.preprocess_data_word (self_) (gbt_word)); (let self__8 := c_31.2; (c_31.1, self__8))) else (if (word == ItsPayloadWord.TDH) then (let c_32 := (CdpRunningValidator.preprocess_tdh (self_) (gbt_word)); (let self__8 := c_32.2; (if self__8.f_running_checks_enabled then (let c_33 := (CdpRunningValidator.check_tdh_no_continuation (self__8) (gbt_word)); (let self_ := c_33.2; (let c_34 := (CdpRunningValidator.check_tdh_trigger_interval (self_) (gbt_word)); (let self__12 := c_34.2; ((), self__12))))) else ((), self__8)))) else (if (word == ItsPayloadWord.TDT) then (let c_35 := (CdpRunningValidator.preprocess_tdt (self_) (gbt_word)); (let self__8 := c_35.2; (c_35.1, self__8))) else (if (word == ItsPayloadWord.IHW) then (let c_36 := (CdpRunningValidator.preprocess_ihw (self_) (gbt_word)); (let self__8 := c_36.2; (if self__8.f_running_checks_enabled then (let c_37 := (CdpRunningValidator.check_rdh_at_initial_ihw (self__8) (gbt_word)); (let self_ := c_37.2; ((), self_))) else ((), self__8)))) else (if (word == ItsPayloadWord.TDH_after_packet_done) then (let c_38 := (CdpRunningValidator.preprocess_tdh (self_) (gbt_word)); (let self__8 := c_38.2; (if self__8.f_running_checks_enabled then (let c_39 := (CdpRunningValidator.check_tdh_by_was_tdt_packet_done_true (self__8) (gbt_word)); (let self_ := c_39.2; (let c_40 := (CdpRunningValidator.check_tdh_trigger_interval (self_) (gbt_word)); (let self__12 := c_40.2; ((), self__12))))) else ((), self__8)))) else (if (word == ItsPayloadWord.DDW0) then (let c_41 := (CdpRunningValidator.preprocess_ddw0 (self_) (gbt_word)); (let self__8 := c_41.2; (c_41.1, self__8))) else (if (word == ItsPayloadWord.TDH_continuation) then (let c_42 := (CdpRunningValidator.preprocess_tdh (self_) (gbt_word)); (let self__8 := c_42.2; (if self__8.f_running_checks_enabled then (let c_43 := (CdpRunningValidator.check_tdh_continuation (self__8) (gbt_word)); (let self_ := c_43.2; ((), self_))) else ((), self__8)))) else (let c_44 := (CdpRunningValidator.preprocess_ihw (self_) (gbt_word)); (let self__8 := c_44.2; (c_44.1, self__8)))))))))))))))))
+
+def CdpRunningValidator.set_current_rdh (self_ : CdpRunningValidator) (rdh : SrcRdh.RdhCru) (rdh_mem_pos : Nat) : (Unit × CdpRunningValidator) :=
+  (let self__1 := { self_ with f_tracker := (SrcState.CdpTracker.new (rdh) (rdh_mem_pos)) }; (let self_ := { self__1 with f_rdh_validator := (SrcState.ItsRdhValidator.new (rdh)) }; ((), self_)))
 
 /-! kernel-checked: every literal mask was split into contiguous runs correctly -/
 end SrcLink
